@@ -250,7 +250,7 @@ Section TupleRefines.
       apply t_inv_items. rewrite <- (app_nil_r (vs ++ [v])), <- app_assoc. simpl.
       apply distinct_insert; rewrite app_nil_r; auto. }
     destruct o; try (simpl in Hin; discriminate);
-      unfold spec_ok; try (unfold SeqModels.spec_step; rewrite Hin; simpl negb; cbv iota);
+      unfold spec_ok; try rewrite Hin; try (unfold SeqModels.spec_step; rewrite Hin; simpl negb; cbv iota);
       simpl in Hin; cbn [t_fresh] in Hfr.
     - (* push *) destruct (Hpush _ _ _ Hfr Hstep) as (H1 & H2 & H3). rewrite H2, H3. auto.
     - (* pop *)
